@@ -134,6 +134,10 @@ def helper_case(draw, mode):
         for l in leaves:
             if draw(st.integers(0, 3)) == 0:
                 l[1] = draw(st.sampled_from(['float64', 'complex128']))
+    if what == 'dot' and draw(st.integers(0, 3)) == 0:
+        # long leaves (time streams, maps), around and at multiples of the block sizes a chunked reduction would use
+        big = draw(st.sampled_from([[4096], [8192], [2, 4096], [4097], [5000], [12288], [3, 1024], [65536], [1023]]))
+        leaves[draw(st.integers(0, nl - 1))] = [big, draw(st.sampled_from(['float32', 'int32', 'complex64']))]
     layout = draw(st.sampled_from(['tuple', 'list', 'dict', 'nested', 'leaf']))
     return {'what': what, 'leaves': leaves, 'layout': layout, 'seed': draw(st.integers(0, 99)),
             'fill': draw(st.sampled_from([0, 1, 3, -2])), 'struct_leaves': draw(st.booleans()),
@@ -521,6 +525,8 @@ def _check_helper(r, mode):
         cplx = any(dt.kind == 'c' for _, dt in flat_specs)
         if cplx:
             classes.append('complex')
+        if any(int(np.prod(sh)) >= 1000 for sh, _ in flat_specs):
+            classes.append('long_leaf')
         return {'nontrivial': cplx, 'classes': classes}
     src = structs if r['struct_leaves'] else jx
     if w == 'like':
